@@ -185,6 +185,28 @@ class Env(object):
                 return True
         return False
 
+    def batch_round(self, data, addr, k):
+        """the honest client sends one message; k copies of a hostile datagram reach the server's queue ahead of it in the
+        same loop iteration.  Returns the number of ticks until the echo is back (None: not within 16)."""
+        w = self.w
+        ce = w.clients[0]
+        self.batches = getattr(self, "batches", 0) + 1
+        tag = b"batch-%d" % self.batches
+        ce.client.send(tag, retry=0)
+        w.tick()           # leaves the client; in flight for one tick
+        for i in range(k):
+            a = addr if addr != FRESH else (FRESH[0], 5000 + (self.batches * 64 + i) % 60000)
+            w.bytes_in[a] = w.bytes_in.get(a, 0) + len(data)
+            try:
+                w.server.datagramReceived(bytes(data), a)
+            except Exception:
+                pass
+        for t in range(1, 17):
+            w.tick()
+            if any(p == b"echo:" + tag for _, p in ce.delivered):
+                return t
+        return None
+
     def observe(self):
         w = self.w
         hc = w.ctxt.connections.get(w.clients[0].addr)
@@ -611,6 +633,38 @@ def work(arg):
                 flag([("blocklist", "messages of a peer that was block-listed after connecting still reach the handler", "")], wit)
         finally:
             env.close()
+    elif kind == "batch":
+        # hostile datagrams cost the honest clients no loop iterations: a batch of them queued AHEAD of an honest datagram in
+        # the same iteration does not postpone the answer
+        _, mtu, source, entry = arg
+        env = Env(mtu, "none") if entry == "twisted" else UdpEnv(mtu, "none")
+        try:
+            w = env.w
+            addr = {"fresh": FRESH, "temp": TEMP, "spoofed": w.clients[0].addr}[source]
+            base = [env.batch_round(b"", addr, 0) for _ in range(3)]
+            items = [(l, c, d) for l, c, d in family("quick") if ("len-field true" in l and "to-server" in l and "count 1" in l and ("body: junk" in l or "body: valid hello" in l or "body: empty" in l))
+                     or "truncated to 2" in l or "truncated to 19" in l or "4096 bytes" in l]
+            for l, c, d in items:
+                for k in (24,):
+                    if source == "temp" and TEMP not in w.ctxt.temp_connections:
+                        # keep the address half-open
+                        w.inject("s", crc(hdr(TO_SERVER, 1, 2 + len(hello_body(14)), 1) + b"\x00\x01" + hello_body(14)), client_addr=TEMP)
+                        w.tick()
+                        env.flush()
+                    total += k
+                    t = env.batch_round(d, addr, k)
+                    counts.inc("batches")
+                    if w.baton.dead or None in base:
+                        break
+                    if t is None or t > max(base) + 1:
+                        flag([("honest", "hostile datagrams queued ahead of an honest client's datagram postpone its service by whole loop iterations (%s source)" % source,
+                               "%d copies of [%s] from %s: echo after %s ticks, %r without them" % (k, l, source, t, base))],
+                             {"part": "batch", "mtu": mtu, "source": source, "entry": entry, "label": l, "hex": d[:600].hex()})
+                        env.build()
+                        w = env.w
+                        addr = {"fresh": FRESH, "temp": TEMP, "spoofed": w.clients[0].addr}[source]
+        finally:
+            env.close()
     elif kind == "pairs":
         _, mtu = arg
         env = Env(mtu, "none")
@@ -678,6 +732,8 @@ def run(tier, seed):
             for source in ("fresh", "temp", "spoofed", "blocked"):
                 jobs.append(("family", mtu, blocklist, source, 0, 1 if tier == "thorough" else 2, "structured", "udp"))
         jobs.append(("pairs", mtu))
+        for source in ("fresh", "temp", "spoofed"):
+            jobs.append(("batch", mtu, source, "twisted"))
         for how in ("add", "setBlockList"):
             for entry in ("twisted", "udp"):
                 jobs.append(("ban", mtu, how, entry))
@@ -700,9 +756,10 @@ def run(tier, seed):
     for (oracle, sig), (cnt, wit, msg) in sorted(acc.items()):
         rep.add_violation(core.Violation(oracle, sig, wit, "%s [%d injections]" % (msg[:400], cnt)))
     rnd = sum(r[0] for r, j in zip(res, jobs) if j[0] == "family" and j[6] == "random")
+    n_batches = sum(r[1].get("batches", 0) for r in res)
     rep.coverage = {
         "states": len(jobs), "transitions": total, "traces_validated_against_impl": total,
-        "injections": total, "injections_structured": total - rnd, "injections_random_supplement": rnd, "echo_round_trips_checked": echoes,
+        "injections": total, "injections_structured": total - rnd, "injections_random_supplement": rnd, "echo_round_trips_checked": echoes, "batches_ahead_of_an_honest_datagram": n_batches,
         "worlds": len(jobs), "classes": dict(classes),
         "evaluations": total, "distinct_nontrivial": total - rnd,
         "rule": "structured family = body kind (13: empty, junk, valid hello, 6 damaged hellos, 3 serializer bombs, unknown id) x type byte 0..8 x count {0,1,2,255} x length field {true,0,1,true+1,65535} x magic x crc ok/bad + two-message datagrams + raw lengths incl. RECV_SIZE; "
@@ -726,4 +783,7 @@ def replay(witness):
             return [core.Violation(o, s, witness, m) for o, s, m in v]
         finally:
             env.close()
+    if witness.get("part") == "batch":
+        t, c, viols, e = work(("batch", witness["mtu"], witness["source"], witness.get("entry", "twisted")))
+        return [core.Violation(k[0], k[1], witness, x[2]) for k, x in viols.items()]
     return []
